@@ -21,6 +21,7 @@ mod c16_drop;
 mod c17_nonacq;
 mod probe;
 pub mod col;
+mod nest;
 mod gen_col;
 
 // harnesses over the unwind-to-Result dialect; only built when u2r has generated the twins (T4)
